@@ -201,7 +201,14 @@ func mergeListMatch(obj []any, m any, v map[string]any) ([]any, error) {
 		if match(v2, m) {
 			found = true
 
-			v2, err := merge(v2, val)
+			// Each matching entry gets its own copy; merge may return or
+			// modify the value it is given.
+			val2, err := deepClone(val)
+			if err != nil {
+				return nil, err
+			}
+
+			v2, err := merge(v2, val2)
 			if err != nil {
 				return nil, err
 			}
